@@ -51,7 +51,7 @@ def _ring_expected(n):
 def _job(kind, text, flags):
     if kind == "dec":
         def run():
-            r = sf.decoder(text, attribute=bool(flags.get("attribute")))
+            r = sf.decoder(text, attribute=bool(flags.get("attribute")), compatible=bool(flags.get("compatible")))
             if flags.get("attribute"):
                 return [r[0], [[a.index, a.token, [[x.index, x.token] for x in (a.attribution or [])]] for a in r[1]]]
             return r
@@ -335,10 +335,17 @@ COLD_DEC = ["[C][=C][Branch1][C][O][C][Ring1][Ring2]", "[C][C][C][C][=Ring1][Rin
             "[C][C][C][C][C][\\/Ring1][Branch1]", "[C]" * 120 + "[Ring3][C][Ring1][Ring2]", "[N][=Branch2][C][Ring1][O][F]"]
 
 
+COLD_LEGACY = ["[C][Branch3_1][C][C][C][F][Cl]", "[C][C][C][C][Expl=Ring3][C][C][Ring1]", "[C][Branch2_3][C][Ring1][N][O]", "[C][C][C][Expl\\Ring3][C][C][Ring2]",
+               "[C@@Hexpl][Branch1_2][C][=O][C][Expl#Ring1][C]", "[S][Branch1_3][C][#N][Branch2_1][C][C][O-expl]", "[C][C][C][Expl/Ring2][C][Ring1]"]
+
+
 def gen_cold(ch):
     jobs = []
     for _ in range(ch.int(3, 6)):
-        w = ch.int(0, 4)
+        w = ch.int(0, 5)
+        if w == 5:
+            jobs.append(dict(kind="dec", text=ch.pick(COLD_LEGACY), flags=dict(compatible=True)))
+            continue
         if w == 0:
             jobs.append(dict(kind="dec", text=ch.pick(COLD_DEC), flags={}))
         elif w == 1:
